@@ -3,6 +3,7 @@ package props
 import (
 	"encoding/json"
 	"fmt"
+	"github.com/cosmos/cosmos-sdk/codec"
 	"math/big"
 	"time"
 
@@ -27,7 +28,7 @@ type Action struct {
 	Asset   int      `json:"asset,omitempty"`
 	Amount  string   `json:"amt,omitempty"`
 	Neg     bool     `json:"neg,omitempty"`
-	Dt      int      `json:"dt,omitempty"`   // seconds
+	Dt      int      `json:"dt,omitempty"` // seconds
 	Factor  string   `json:"factor,omitempty"`
 	Back    int64    `json:"back,omitempty"` // infraction height = current height - Back
 	Power   int64    `json:"power,omitempty"`
@@ -415,3 +416,5 @@ func maxInt(a, b int) int {
 
 // IsNativeAssetID reports whether id is the chain's own token.
 func IsNativeAssetID(id string) bool { return id == assetstypes.ExocoreAssetID }
+
+func encodingCodec() codec.Codec { return sim.Codec() }
